@@ -184,30 +184,10 @@ Example C14_example_roundtrip : tn_import ex_tbl "1.000" "0.000" (tn_export 3 ex
 Proof. vm_compute. reflexivity. Qed.
 
 Example C14_example_representable : representable (tn_round ex_tbl) tn_close1 (TN "1.000" true) 3 ex_engine.
-Proof.
-  vm_compute.
-  repeat match goal with
-         | |- Forall _ _ => constructor
-         | |- _ /\ _ => split
-         | |- _ \/ _ => first [left; reflexivity | right; split; reflexivity]
-         | |- True => exact I
-         | |- _ = _ => reflexivity
-         | |- _ -> _ => intros; try reflexivity; try discriminate
-         end.
-Qed.
+Proof. solve_concrete. Qed.
 
 Example C14_example_stable : stable (tn_round ex_tbl) tn_close1 3 ex_engine.
-Proof.
-  vm_compute.
-  repeat match goal with
-         | |- Forall _ _ => constructor
-         | |- _ /\ _ => split
-         | |- _ \/ _ => first [left; reflexivity | right; split; reflexivity]
-         | |- True => exact I
-         | |- _ = _ => reflexivity
-         | |- _ -> _ => intros; try reflexivity; try discriminate
-         end.
-Qed.
+Proof. solve_concrete. Qed.
 
 (* an accepted variant (comments, blank lines, reordered keys, a duplicated key, blanks before a colon) normalises to the
    same lines after one cycle *)
@@ -232,10 +212,19 @@ Proof. vm_compute. reflexivity. Qed.
 Example C14_fixpoint_needs_stable_refuted :
   A_fmt n3_fmt n3_parse n3_round n3_close1 NB /\ wf n3_close1 n3_engine = true /\
   exists e2, n3_import (n3_export n3_engine) = Ok e2 /\ n3_export e2 <> n3_export n3_engine.
-Proof.
-  split; [exact n3_A_fmt|]. split; [vm_compute; reflexivity|].
-  eexists. split; [vm_compute; reflexivity|]. vm_compute. discriminate.
-Qed.
+Proof. exact n3_fixpoint_fails. Qed.
+Print Assumptions C14_fixpoint_needs_stable_refuted.
+
+(* the statement of `export_normalize` without the stability hypothesis, kept visible: it is FALSE of the model (and of
+   the code: the check reports the same input on the implementation under the signature "fll:height-rounds-into-tolerance") *)
+Definition C14_export_normalize_unconditional : Prop :=
+  forall (num : Type) fmt parse round close1 (n_one : num),
+  A_fmt fmt parse round close1 n_one ->
+  forall d e, wf close1 e = true ->
+  export fmt close1 d (normalize round close1 n_one d e) = export fmt close1 d e.
+Theorem C14_export_normalize_unconditional_refuted : ~ C14_export_normalize_unconditional.
+Proof. intros H. exact (n3_export_normalize_fails (H n3 n3_fmt n3_parse n3_round n3_close1 NB n3_A_fmt 1%nat n3_engine eq_refl)). Qed.
+Print Assumptions C14_export_normalize_unconditional_refuted.
 
 (* a disabled rule comes back enabled *)
 Definition ex_disabled : fll_engine tnum :=
